@@ -295,7 +295,7 @@ class PullOffSuite(PairedSuite):
 # ============================================================================= C13 / C12 / C14: sessions with humans on a line
 def line_session(rng, *, kind, inertia, ratio=1, offset=0, human_leads=None, n=None, nrows=10, max_bells=15,
                  peal=None, tempo_change=None, early_ms=0, initial_inertia=0, jitter_us=0, n_humans=None,
-                 prelude=None, covers=0):
+                 prelude=None, covers=0, offset_places=0, via_setting=False):
     """Humans strike perfectly evenly on their own line t = A + B * blow.
     prelude = ratio: the session is the SECOND touch on the same rhythm object; in a first touch of six
     rows the same humans rang evenly at `ratio` times the configured interval, then 'Stand next'."""
@@ -332,7 +332,7 @@ def line_session(rng, *, kind, inertia, ratio=1, offset=0, human_leads=None, n=N
         t_end = look1 + 3 + max(b1, iv) * (6 * n + 4) + 2
         evs.append(ev(t_end, "global", [True] * n))
         look_to = t_end + Fraction(1, 2) + look_to
-    a0 = look_to + 3 + Fraction(offset)
+    a0 = look_to + 3 + Fraction(offset) + iv * Fraction(offset_places)
     b0 = iv * Fraction(ratio)
     evs.append(ev(look_to, "call", "Look to"))
     human_blows = []
@@ -363,7 +363,17 @@ def line_session(rng, *, kind, inertia, ratio=1, offset=0, human_leads=None, n=N
     horizon = line[0] + line[1] * (nrows * n + nrows // 2) + Fraction(1, 3000)
     rh = {"kind": kind, "inertia": inertia, "peal_speed": peal, "gap": gap, "max": max_bells,
           "initial_inertia": initial_inertia}
+    if via_setting:
+        # server mode: Wheatley is built with inertia 1 and is TOLD the inertia over the socket before Look to
+        rh["inertia"] = 1.0
+        evs.append(ev(Fraction(11, 1000), "user_entered", 1, "Wheatley"))
+        for b in range(1, n + 1):
+            if b not in humans:
+                evs.append(ev(Fraction(12, 1000) + Fraction(b, 100000), "assign", b, 1))
+        evs.append(ev(Fraction(91, 1000), "setting", [["inertia", inertia if rng.random() < 0.5 else int(inertia) if inertia == int(inertia) else inertia]]))
     sc = base(spec, n, rh, evs, horizon)
+    if via_setting:
+        sc.update({"name": "Wheatley", "instance": 5})
     return sc, {"n": n, "humans": sorted(humans), "iv": fstr(iv), "lines": [[fstr(x) for x in l] for l in lines],
                 "look_to": fstr(look_to), "human_blows": [[r, p, b, fstr(t)] for (r, p, b, t) in human_blows],
                 "gap": gap, "max": max_bells, "tol": fstr(Fraction(3, 1000) if jitter_us else TOL),
@@ -429,11 +439,15 @@ class OutlierSuite(PairedSuite):
 
     def scenarios(self, rng, tier):
         for i in range(80 if tier == "quick" else 800):
+            leads = rng.choice([True, False])
             a, orc = line_session(rng, kind="regression", inertia=rng.choice([0.0, 0.3, 0.5, 0.8]),
-                                  human_leads=rng.choice([True, False]), nrows=9, n=rng.choice([6, 8, 10]),
+                                  human_leads=leads, nrows=9, n=rng.choice([6, 8, 10]),
                                   # ("any dataset size": also the smallest -X values, for which no line is ever fitted)
                                   max_bells=rng.choice([5, 8, 15, 30, 2, 3, 4]), jitter_us=rng.choice([0, 100]),
-                                  n_humans=rng.choice([None, None, 1]))
+                                  n_humans=rng.choice([None, None, 1]),
+                                  # (a human leader need not pull off at Look to + 3 s: two or three places later or earlier
+                                  # - the measure of "places out" is the line being rung, not the nominal start)
+                                  offset_places=rng.choice([0, 0, 2, -2, 3]) if leads else 0)
             iv, n = Fraction(orc["iv"]), orc["n"]
             # "once the rhythm is settled": from the third whole row on (two or more datapoints are held)
             cands = [(j, hb) for j, hb in enumerate(orc["human_blows"]) if hb[0] >= 2 and hb[0] <= 6]
@@ -481,7 +495,7 @@ class TempoSuite(PairedSuite):
             if mode == "exact":
                 a, orc = line_session(rng, kind="regression", inertia=0.0, ratio=ratio, offset=offset,
                                       human_leads=leads, nrows=8, max_bells=mb, jitter_us=jit, prelude=pre,
-                                      covers=rng.choice([0, 0, 1, 2, 3, 4]))
+                                      covers=rng.choice([0, 0, 1, 2, 3, 4]), via_setting=(pre is None and rng.random() < 0.5))
             elif mode == "geometric":
                 a, orc = line_session(rng, kind="regression", inertia=rng.choice([0.1, 0.3, 0.5]), ratio=ratio,
                                       offset=offset, human_leads=leads, nrows=16, max_bells=mb, jitter_us=jit, prelude=pre)
@@ -492,7 +506,7 @@ class TempoSuite(PairedSuite):
                 a, orc = line_session(rng, kind="regression", inertia=0.0, ratio=ratio, offset=offset,
                                       human_leads=leads, nrows=14, max_bells=rng.choice([5, 8, 15]),
                                       tempo_change=(rng.randint(3, 5), ratio * Fraction(rng.choice([97, 98, 103, 105]), 100)),
-                                      jitter_us=jit)
+                                      jitter_us=jit, via_setting=rng.random() < 0.5)
             case = {"a": a, "oracle": dict(orc, mode=mode, inertia=a["rhythm"]["inertia"])}
             if mode == "fixed":
                 alone = copy.deepcopy(a)
